@@ -19,7 +19,7 @@ from simphot.compare import buffer_digest, digest
 from simphot.kernel import (Inapplicable, Machine, Raised, Violation, call,
                             dec, enc)
 
-DATA_REPRS = ['nd', 'ma', 'ma0', 'q', 'view', 'int', 'clean', 'f32']
+DATA_REPRS = ['nd', 'ma', 'ma0', 'q', 'view', 'int', 'clean', 'f32', 'be']
 
 
 class _St:
@@ -75,6 +75,7 @@ def _digest_any(o):
         return ('nddata', buffer_digest(o.data), buffer_digest(
             None if o.mask is None else np.asarray(o.mask)),
             buffer_digest(None if unc is None else unc.array), str(o.unit),
+            type(unc).__name__, str(getattr(unc, 'unit', None)),
             repr(sorted((k, repr(v)) for k, v in o.meta.items())))
     if mod.startswith('photutils.aperture'):
         return ('aper', _aper_digest(o))
@@ -216,6 +217,8 @@ class InputsMachine(Machine):
             np.int64)
         P['clean'] = clean.copy()
         P['f32'] = np.where(np.isfinite(data), data, 0).astype(np.float32)
+        # non-native byte order (what a FITS reader hands over)
+        P['be'] = np.where(np.isfinite(data), data, 0).astype('>f8')
         P['error'] = np.abs(g.normal(1.0, 0.1, data.shape)) + 0.2
         P['error_q'] = P['error'].copy() * u.Jy
         P['error_nan'] = P['error'].copy()
@@ -343,6 +346,16 @@ class InputsMachine(Machine):
         P['gain0_base'] = gbase
         P['gain0_view'] = gbase[2:-2, 3:-3]
         P['gain0_q'] = gain0 * (u.electron / u.Jy)
+        from astropy.nddata import InverseVariance, VarianceUncertainty
+        P['nddata_var'] = NDData(clean.copy(), uncertainty=VarianceUncertainty(
+            P['error'] ** 2))
+        P['nddata_ivar'] = NDData(clean.copy(), uncertainty=InverseVariance(
+            1.0 / P['error'] ** 2))
+        # a model whose ePSFs all sit at the same x (a single column)
+        gcol = GriddedPSFModel(NDData(psfs.copy(), meta={
+            'grid_xypos': [(5, 0), (5, 10), (5, 20), (5, 30)],
+            'oversampling': 1}))
+        P['gmodel_col'] = gcol
         P['nddata'] = NDData(data.copy(), mask=mask.copy(),
                              uncertainty=StdDevUncertainty(
                                  P['error'].copy()))
@@ -546,6 +559,13 @@ class InputsMachine(Machine):
         if op['data'] == 'view' and v == 5:
             data = P['nddata']
             return self._run(st, op, lambda: aperture_photometry(data, aper))
+        if op['data'] == 'clean' and v >= 3:
+            # NDData whose uncertainty is a variance / inverse variance
+            from photutils.aperture import ApertureStats
+            nd = P['nddata_var'] if v % 2 else P['nddata_ivar']
+            return self._run(st, op, lambda: (
+                aperture_photometry(nd, aper),
+                ApertureStats(nd, P['aper']).sum_err))
         return self._run(st, op, lambda: aperture_photometry(
             data, aper, error=error, mask=mask,
             method=['exact', 'center', 'subpixel'][op.get('opt', v) % 3],
@@ -1026,6 +1046,12 @@ class InputsMachine(Machine):
             c = m.copy()
             c.x_0 = 20.0
             out = out + c(xx, yy)
+            if op.get('opt', 0) == 7:
+                import matplotlib.pyplot as plt
+                for gm in (P['gmodel_col'], P['gmodel_fx']):
+                    gm.plot_grid(peak_norm=True)
+                    gm.plot_grid(deltas=True)
+                plt.close('all')
             if v % 3 == 0:
                 make_model_image((30, 32), m, P['params'],
                                  model_shape=(7, 7))
